@@ -20,6 +20,7 @@ import Golib.Step.Prefix
 import Golib.Step.Reuse
 import Golib.Step.Setters
 import Golib.Step.ValueInst
+import Golib.Step.ApiFacts
 
 namespace C08
 open Step Prim
@@ -562,6 +563,130 @@ theorem setbits_accumulate (f : String) (b k1 k2 : Nat) (o : Rec) (h0 : o f = .i
     ((Setter.orByte f).apply (.int k2) ((Setter.orByte f).apply (.int k1) o)) f = .i ((b ||| k1 ||| k2 : Nat)) :=
   orByte_accumulates f b k1 k2 o h0 hb h1 h2
 
+/-! ### the API around Write / Read: accessors, constructors, ToBytes / ToObject, WriteVer0 / ReadVer0 -/
+
+/-- an accessor (`Get…`, `Set…`, `IsTrue`, `SetTrue`, `GetElapsed`) changes at most its own field -/
+theorem accessor_frame (a : Acc) (arg : Int) (o : Rec) (nm : String) (h : a.target ≠ some nm) :
+    (a.run arg o).1 nm = o nm := Acc.run_frame a arg o nm h
+
+/-- `SetX(v)` then `GetX()` returns `v`; the last of two `SetX` wins; `SetTrue(k)` then `IsTrue(k)` is true -/
+theorem get_after_set (f : String) (v : Int) (o : Rec) : ((Acc.get f).run 0 ((Acc.set f).run v o).1).2 = v :=
+  Acc.get_after_set f v o
+theorem set_last_wins (f : String) (v w : Int) (o : Rec) :
+    ((Acc.set f).run w ((Acc.set f).run v o).1).1 = ((Acc.set f).run w o).1 := Acc.set_set f v w o
+theorem istrue_after_settrue (f : String) (k : Int) (o : Rec) (hk : byteOf k ≠ 0) :
+    ((Acc.bit f).run k ((Acc.orByte f).run k o).1).2 = 1 := Acc.bit_after_or f k o hk
+
+/-- `SetDrop` / `SetTrue` of the Step interface never change what a step writes: for every step type (the nine
+    registered ones, MessageStepX, SqlStep_3) the writer does not look at `AbstractStep.Drop` / `AbstractStep.Opt` -/
+theorem setdrop_settrue_not_on_wire (p : Nat × String × L) (hp : p ∈ stepTable ++ unregisteredSteps) (a : Acc)
+    (ha : a = .set "AbstractStep.Drop" ∨ a = .orByte "AbstractStep.Opt") (arg : Int) (o : Rec) :
+    p.2.2.write (a.run arg o).1 = p.2.2.write o := by
+  have hall : ∀ q ∈ stepTable ++ unregisteredSteps,
+      "AbstractStep.Drop" ∉ q.2.2.reads ∧ "AbstractStep.Opt" ∉ q.2.2.reads := by decide
+  apply write_after_acc
+  intro f hf
+  rcases ha with rfl | rfl <;> simp only [Acc.target, Option.some.injEq] at hf <;> subst hf
+  · exact (hall p hp).1
+  · exact (hall p hp).2
+
+/-- … while the setters of the wire fields do travel: `SetParent(v)`, `WriteStep`, `ReadStep`, `GetParent()` gives `v`
+    (here for a DBC step; `step_iface_roundtrip` is the statement for every type and every getter) -/
+example (o : Rec) (r : Bytes) (h : dbcStep.inRanges ((Acc.set "Parent").run 7 o).1) :
+    ∃ e, readOne stepTable (Item.bytes ⟨8, dbcStep, ((Acc.set "Parent").run 7 o).1⟩ ++ r) = some ((8, e), r) ∧
+      getterVal "DBCStep" "GetParent" (e.over (freshOfType "DBCStep")) = 7 := by
+  obtain ⟨h1, h2⟩ := step_roundtrip_DBCStep _ r h
+  refine ⟨_, h1, ?_⟩
+  rw [getterVal_get "DBCStep" "GetParent" "Parent" _ _ _ (by decide) (h2 "Parent" (by decide))]
+  have ha : accOf "DBCStep" "GetParent" = some (.get "Parent") := by decide
+  simp only [getterVal, ha]
+  exact Acc.get_after_set "Parent" 7 o
+
+/-- the OBJECT `ReadStep` hands out: the fields the reader assigned laid over what `CreateStep`'s constructor made -/
+theorem readstep_object (s : Item) (r : Bytes) (h : StepOK s) :
+    ∃ n, stepTable.lookup s.code = some (n, s.lay) ∧
+      readObj stepTable (s.bytes ++ r) = some ((s.code, (s.lay.expect s.x []).over (freshOfType n)), r) :=
+  readObj_roundtrip valueRT stepTable s r h
+
+theorem toobject_object (s : Item) (r : Bytes) (h : s.ok valueRT serviceTable) :
+    ∃ n, serviceTable.lookup s.code = some (n, s.lay) ∧
+      readObj serviceTable (s.bytes ++ r) = some ((s.code, (s.lay.expect s.x []).over (freshOfType n)), r) :=
+  readObj_roundtrip valueRT serviceTable s r h
+
+/-- what the constructors set: `NewHttpcStepX` version 2, `NewHttpcStepXVersion(v)` version v,
+    `NewMessageStepXWithStartTime(t)` start time t -/
+theorem ctor_inits (v t : Int) :
+    (freshOfType "HttpcStepX" "Version").toInt = 2 ∧
+    fresh "NewHttpcStepXVersion" v = some ("HttpcStepX", (zeroOf httpcStepX).set "Version" (.i v)) ∧
+    fresh "NewMessageStepXWithStartTime" t = some ("MessageStepX", (zeroOf messageStepX).set "StartTime" (.i t)) ∧
+    ((zeroOf httpcStepX).set "Version" (.i v)) "Version" = .i v ∧
+    ((zeroOf messageStepX).set "StartTime" (.i t)) "StartTime" = .i t :=
+  ⟨by decide, rfl, rfl, Rec.set_same _ _ _, Rec.set_same _ _ _⟩
+
+/-- what the `step.Step` interface shows of a step — type code, `GetParent`, `GetIndex`, `GetStartTime`,
+    `GetElapsed` — is the same on the decoded object as on the written one, for every registered type
+    (whatever object the reader assigned into) -/
+theorem step_iface_roundtrip (s : Item) (n : String) (o : Rec) (hm : (s.code, n, s.lay) ∈ stepTable) :
+    stepObs n s.code ((s.lay.expect s.x []).over o) = stepObs n s.code s.x := stepObs_roundtrip s n o hm
+
+def nameOfCode (c : Nat) : String := match stepTable.lookup c with | some (n, _) => n | none => ""
+/-- the interface observation of a decoded step (object made by `CreateStep`, then read into) … -/
+def decodedObs (ce : Nat × Env) : List Int :=
+  stepObs (nameOfCode ce.1) ce.1 (ce.2.over (freshOfType (nameOfCode ce.1)))
+/-- … and of a step as it was written -/
+def writtenObs (s : Item) : List Int := stepObs (nameOfCode s.code) s.code s.x
+
+/-- for ALL lists of registered steps: reading the stream back and looking at every step through the
+    interface getters gives the observations of the written steps, in order -/
+theorem stream_iface_roundtrip (ss : List Item) (r : Bytes) (h : ∀ s ∈ ss, StepOK s) :
+    (readN stepTable ss.length (toBytesStep ss ++ r)).map (fun p => (p.1.map decodedObs, p.2)) =
+      some (ss.map writtenObs, r) := by
+  rw [stream_roundtrip_n ss r h]
+  simp only [Option.map, List.map_map, Option.some.injEq, Prod.mk.injEq, and_true]
+  apply List.map_congr_left
+  intro s hs
+  obtain ⟨n, hn⟩ := lookupLayout_some stepTable s.code s.lay (h s hs).2.1
+  have hname : nameOfCode s.code = n := by simp only [nameOfCode, hn]
+  have hm : (s.code, n, s.lay) ∈ stepTable := lookup_mem stepTable s.code (n, s.lay) hn
+  simp only [Function.comp, decodedObs, writtenObs, Item.expected, hname]
+  exact stepObs_roundtrip s n _ hm
+
+/-- `t.ToObject(x.ToBytes() ++ anything)`: the carried fields of `x` over the receiver; the bytes that follow
+    the record are not looked at -/
+theorem txrecord_toobject_tobytes (o x : Rec) (rest : Bytes) (h : WF txRecord x) :
+    txToObject o (txToBytes x ++ rest) = some ((txRecord.expect x []).over o) :=
+  txToObject_toBytes valueRT o x rest h
+
+/-- `MessageStepX.Write` = AbstractStep's three decimals, version byte 0, `WriteVer0()` as a blob; and
+    `ReadVer0(WriteVer0())` called directly restores title, description, control bits and — iff one was
+    written — the attribute map, into any object -/
+theorem messagestepx_write_is_ver0 (x : Rec) :
+    messageStepX.write x = (absStep .nil).write x ++ [0] ++ encBlob (writeVer0 x) := messageStepX_write_ver0 x
+theorem readver0_writever0 (o x : Rec) (hb : msgVer0Body.inRanges x) (ha : attrWF valueRT (some "Attr") x) :
+    readVer0 o (writeVer0 x) = some ((attrEnv (some "Attr") x (msgVer0Body.expect x [])).over o) :=
+  readVer0_writeVer0 valueRT o x hb ha
+
+/-- `CtrToJson()` of a decoded MessageStepX is that of the written one -/
+theorem ctrtojson_roundtrip (o x : Rec) : ctrToJson ((messageStepX.expect x []).over o) = ctrToJson x := by
+  have h := (message_attrs x).2.2.2.1
+  simp only [ctrToJson, Env.over, h]
+
+/-! ### mixed streams: steps, service records and untagged records on one output -/
+
+/-- any interleaving of steps (`WriteStep`), service records (`service.ToBytes`) and untagged records (`x.Write`:
+    TxRecord, MessageStepX, SqlStep_3, pack bodies) written onto ONE output is read back from ONE input — each
+    element by the reader of its kind — as the same elements in the same order, each consuming exactly its own
+    bytes, with whatever follows untouched -/
+theorem mixed_stream_roundtrip (es : List Elem) (r : Bytes) (h : ∀ e ∈ es, e.ok valueRT) :
+    readMixed (es.map (·.sch)) (writeMixed es ++ r) = some (es.map Elem.expected, r) :=
+  mixed_roundtrip valueRT es r h
+
+/-- the step-only and service-only streams are the instances with one kind of element -/
+theorem mixed_steps_only (ss : List Item) : writeMixed (ss.map (fun s => ⟨.step, s⟩)) = toBytesStep ss := by
+  induction ss with
+  | nil => rfl
+  | cons s ss ih => simp only [List.map_cons, writeMixed, Elem.bytes, toBytesStep, ih]
+
 /-! ### truncated records that hold tagged values (TxRecord, MessageStepX, the ProfilePack body) -/
 
 /-- the tagged values of these records live inside a length-prefixed blob that the reader takes whole
@@ -793,5 +918,32 @@ example : toBytesStep [⟨8, dbcStep, fun nm => if nm = "Parent" then .i 1 else 
 
 /-- the all-zero TxRecord: version byte 10, blob length 47, 47 zero bytes -/
 example : txRecord.write (fun _ => .i 0) = 10 :: 47 :: List.replicate 47 0 := by decide
+
+/-- the hypotheses of `mixed_stream_roundtrip` are met by a DBC step, the zero AppService and a version-2 HTTP call -/
+example : ∀ e ∈ [(⟨.step, ⟨8, dbcStep, sample⟩⟩ : Elem), ⟨.plain sqlStep3, ⟨0, sqlStep3, fun nm => if nm = "Opt" then .i 7 else sample nm⟩⟩,
+                 ⟨.svc, ⟨1, wasService, fun nm => if nm = "IpAddr" then .i 5 else sample nm⟩⟩], e.ok valueRT := by
+  intro e he
+  simp only [List.mem_cons, List.mem_nil_iff, or_false] at he
+  rcases he with rfl | rfl | rfl
+  · exact ⟨by decide, rfl, L.plain_WF valueRT _ _ [] rfl rfl sample_dbc_inRanges⟩
+  · refine ⟨rfl, ?_⟩
+    simp only [sqlStep3, absStep, seq, L.WF, L.expect, bitSet, Val.toInt]
+    simp (decide := true) [sample, Kind.wf, inRange_4, inRange_8, Env.get, List.lookup]
+  · exact ⟨by decide, rfl, L.plain_WF valueRT _ _ [] rfl rfl sample_was_inRanges⟩
+
+/-- `readver0_writever0`: the sample MessageStepX meets the hypotheses; `istrue_after_settrue`: flag 2 (ALREADY_SET_INDEX) -/
+example : msgVer0Body.inRanges sample ∧ attrWF valueRT (some "Attr") sample := by
+  refine ⟨?_, ?_⟩
+  · intro p hp
+    simp only [msgVer0Body, seq, L.fieldKinds, List.mem_cons, List.mem_nil_iff, or_false] at hp
+    rcases hp with rfl | rfl | rfl <;> simp (decide := true) [sample, Kind.wf, inRange_4]
+  · show Value.WFV _
+    decide
+example : byteOf 2 ≠ 0 ∧ byteOf 258 ≠ 0 ∧ byteOf 256 = 0 := by decide
+
+/-- the interface observation of a decoded DBC step: code 8, parent 5, index 5, start time 5, elapsed 5;
+    of a MessageStep the elapsed time is the constant 0 whatever the fields hold -/
+example : writtenObs ⟨8, dbcStep, sample⟩ = [8, 5, 5, 5, 5] ∧ writtenObs ⟨7, messageStep, sample⟩ = [7, 5, 5, 5, 0] := by
+  decide
 
 end C08
